@@ -131,6 +131,7 @@ fn run(case: &Case, out: &mut Out) {
     let mut st: Option<St> = None;
     let mut pool: Option<sozu_lib::pool::Pool> = None;
     let mut held: BTreeMap<i128, sozu_lib::pool::Checkout> = BTreeMap::new();
+    let mut drain: Option<(sozu_lib::metrics::Aggregator, usize)> = None;
     for op in &case.ops {
         let a = &op.args;
         if op.name == "new" {
@@ -199,6 +200,103 @@ fn run(case: &Case, out: &mut Out) {
                     out.viol("pool-over-capacity", &format!("used {} capacity {} maximum {}", p.inner.used(), p.inner.capacity(), p.inner.maximum_capacity()));
                 }
             }
+            continue;
+        }
+        if op.name.starts_with("m_") {
+            // the gauges of the local metrics drain (lib/src/metrics/local_drain.rs) through the real Aggregator:
+            // label filter, AggregatedMetric::{new, update}, clear / remove_cluster / add_cluster / remove_backend
+            use sozu_lib::metrics::{Aggregator, MetricValue, Subscriber, VERIF_GAUGE_UNDERFLOWS};
+            const KEYS: [&str; 2] = ["verif.g0", "verif.g1"];
+            const CL: [&str; 2] = ["c0", "c1"];
+            const BK: [&str; 2] = ["b0", "b1"];
+            let (agg, under) = drain.get_or_insert_with(|| (Aggregator::new(String::from("sozu")), 0usize));
+            let before = VERIF_GAUGE_UNDERFLOWS.load(std::sync::atomic::Ordering::SeqCst);
+            let ix = |t: &Tok| (t.n() as usize).min(1);
+            match op.name.as_str() {
+                "m_recv" => {
+                    let (sc, k) = (a[0].n(), KEYS[ix(&a[3])]);
+                    let (c, b) = (CL[ix(&a[1])], BK[ix(&a[2])]);
+                    let v = a[5].n();
+                    let m = if a[4].n() == 0 { MetricValue::Gauge(v.max(0) as usize) } else { MetricValue::GaugeAdd(v as i64) };
+                    match sc {
+                        0 => agg.receive_metric(k, None, None, m),
+                        1 => agg.receive_metric(k, Some(c), None, m),
+                        _ => agg.receive_metric(k, Some(c), Some(b), m),
+                    }
+                }
+                "m_clear" => agg.clear_local(),
+                "m_rmcluster" => agg.remove_cluster(CL[ix(&a[0])]),
+                "m_addcluster" => agg.add_cluster(CL[ix(&a[0])]),
+                "m_rmbackend" => agg.remove_backend(CL[ix(&a[0])], BK[ix(&a[1])]),
+                "m_detail" => {
+                    use sozu_command_lib::config::MetricDetailLevel as L;
+                    agg.set_up_detail(match a[0].n() {
+                        0 => L::Process,
+                        1 => L::Frontend,
+                        2 => L::Cluster,
+                        _ => L::Backend,
+                    })
+                }
+                "m_enable" => {
+                    use sozu_command_lib::proto::command::MetricsConfiguration as C;
+                    agg.configure(if a[0].n() == 1 { &C::Enabled } else { &C::Disabled })
+                }
+                _ => out.note("invalid-case: unknown drain op"),
+            }
+            *under += VERIF_GAUGE_UNDERFLOWS.load(std::sync::atomic::Ordering::SeqCst) - before;
+            // observation: every gauge of the universe (-1 = no entry), then the clamped underflows
+            let mut o = vec![];
+            let gauge = |m: Option<&sozu_command_lib::proto::command::FilteredMetrics>| -> i128 {
+                use sozu_command_lib::proto::command::filtered_metrics::Inner;
+                match m.and_then(|f| f.inner.as_ref()) {
+                    Some(Inner::Gauge(v)) => *v as i128,
+                    Some(_) => -2,
+                    None => -1,
+                }
+            };
+            match agg.query(&Default::default()) {
+                Ok(resp) => {
+                    use sozu_command_lib::proto::command::response_content::ContentType;
+                    if let Some(ContentType::WorkerMetrics(wm)) = resp.content_type {
+                        for k in KEYS {
+                            let v = gauge(wm.proxy.get(k));
+                            if v > (1i128 << 62) {
+                                out.viol("gauge-wrapped", &format!("proxy gauge {k} reads {v}: an underflow wrapped instead of clamping to 0"));
+                            }
+                            o.push(tn(v));
+                        }
+                        for c in CL {
+                            for k in KEYS {
+                                let v = gauge(wm.clusters.get(c).and_then(|cm| cm.cluster.get(k)));
+                                if v > (1i128 << 62) {
+                                    out.viol("gauge-wrapped", &format!("gauge {k} of cluster {c} reads {v}: an underflow wrapped instead of clamping to 0"));
+                                }
+                                o.push(tn(v));
+                            }
+                        }
+                        for c in CL {
+                            for b in BK {
+                                let bm = wm.clusters.get(c).and_then(|cm| cm.backends.iter().find(|x| x.backend_id == b));
+                                if wm.clusters.get(c).map(|cm| cm.backends.iter().filter(|x| x.backend_id == b).count()).unwrap_or(0) > 1 {
+                                    out.viol("backend-row-duplicated", &format!("cluster {c} has two metric rows for backend {b}"));
+                                }
+                                for k in KEYS {
+                                    let v = gauge(bm.and_then(|x| x.metrics.get(k)));
+                                    if v > (1i128 << 62) {
+                                        out.viol("gauge-wrapped", &format!("gauge {k} of backend {b} in {c} reads {v}: an underflow wrapped instead of clamping to 0"));
+                                    }
+                                    o.push(tn(v));
+                                }
+                            }
+                        }
+                    } else {
+                        out.note("invalid-case: the metrics query did not answer WorkerMetrics");
+                    }
+                }
+                Err(e) => out.note(&format!("invalid-case: metrics query failed: {e}")),
+            }
+            o.push(tn(*under));
+            out.obs(&o);
             continue;
         }
         if op.name == "bb" {
